@@ -76,6 +76,8 @@ class C05(Prop):
                 pastify = False
                 f = lang.gen_formula(rng, lang.dense_cfg(rng, future=False))
         names = lang.variables(f) or [c.vars[0]]
+        if len(names) > 1 and rng.random() < 0.35:
+            return self.gen_independent(rng, f, names, pastify)
         n = rng.randint(2, 8)
         base = lang.gen_signal(rng, n=n, start=Fr(0) if rng.random() < 0.8 else None)
         sig = dict((k, [(t, rng.choice(lang.SMALL)) for (t, _) in base]) for k in names)
@@ -88,6 +90,24 @@ class C05(Prop):
         if len(names) > 1 and rng.random() < 0.5:
             indep = dict((k, sorted(rng.sample(range(1, n), rng.randint(1, n - 1)))) for k in names)
         return {'formula': f, 'signals': sig_text(sig), 'schedules': scheds, 'indep': indep, 'pastify': pastify}
+
+    def gen_independent(self, rng, f, names, pastify):
+        """Every variable has its own sampling instants (and possibly its own first stamp); every update()
+        carries one non-empty batch per variable, cut independently per variable."""
+        sig = {}
+        t0 = Fr(0)
+        for k in names:
+            st = t0 if rng.random() < 0.6 else t0 + Fr(rng.randint(1, 8), 4)
+            sig[k] = lang.gen_signal(rng, n=rng.randint(2, 7), start=st)
+        m_max = min(len(s) for s in sig.values())
+        indep = []
+        for m in sorted(set([1, m_max, rng.randint(1, m_max), rng.randint(1, m_max)])):
+            sched = {}
+            for k in names:
+                nk = len(sig[k])
+                sched[k] = sorted(rng.sample(range(1, nk), m - 1)) if m > 1 else []
+            indep.append(sched)
+        return {'formula': f, 'signals': sig_text(sig), 'schedules': [], 'indep_list': indep, 'pastify': pastify}
 
     def judge(self, case):
         v = Verdict()
@@ -113,6 +133,9 @@ class C05(Prop):
         # the comparator named by the property is the real offline monitor; it must itself agree with
         # the reference here, otherwise the case is C04's business
         end = min(s[-1][0] for s in sig.values())
+        if end < start:
+            v.skip = 'empty common domain'
+            return v
         if not off or ref.compare(exp, off, start, end, same) is not None:
             v.skip = 'offline comparator disagrees with the reference (reported by C04)'
             return v
@@ -121,6 +144,11 @@ class C05(Prop):
         scheds = [('aligned', dict((k, c) for k in names)) for c in case['schedules']]
         if case.get('indep'):
             scheds.append(('per-variable', case['indep']))
+        for sc in case.get('indep_list') or []:
+            scheds.append(('per-variable', sc))
+        if case.get('indep_list'):
+            v.info['class:independent-stamps'] = 1
+            v.nontrivial = lang.has_stateful(f) and any(any(c for c in sc.values()) for sc in case['indep_list'])
         covered = []
         for label, sched in scheds:
             desc = '%s cuts=%s' % (label, sched[names[0]] if label == 'aligned' else sched)
